@@ -817,7 +817,11 @@ def flag_table(run, m, F, E):
         def unroll_for(self2, I, fn, header, st=None):
             # a loop of a helper called for one character (a table lookup): interpreted exactly
             if st is not None and len(st.frames) > 1:
-                return 12
+                from ..interp import loop_info
+                for fr2 in st.frames[:-1]:
+                    loops2, _b = loop_info(fr2.fn)
+                    if any(fr2.block in body for body in loops2.values()):
+                        return 12
             return c10.ParserHooks.unroll_for(self2, I, fn, header, st) if hasattr(c10.ParserHooks, 'unroll_for') else self2.unroll
     I = Interp(m, F, E, PH(m))
     st = c10.text_state()
@@ -913,6 +917,87 @@ def flag_table(run, m, F, E):
     return n
 
 
+def spec_defined(run, m, F, E):
+    """R11.7: the format_spec a field is rendered with is defined by that field's text alone: on every returning path of the parser
+    every member of the spec it hands back has been written in this call (a member left alone would carry over from whatever the
+    object held before - the previous field's flags when the caller reuses one spec, or nothing defined at all)."""
+    from . import c10
+    lay = m.structs.get('struct.ST::format_spec')
+    names = ['minimum_length', 'precision', 'arg_index', 'alignment', 'digit_class', 'float_class', 'pad', 'always_signed', 'class_prefix', 'numeric_pad']
+    if not lay or len(lay['fields']) != len(names):
+        run.ob('R11.7', 'parse_format', None, 'layout of ST::format_spec not recognised')
+        return 0
+    offs = dict((nm, (fld[1], fld[0])) for nm, fld in zip(names, lay['fields']))
+    n = 0
+    for name in F.lib:
+        f = m.func(name)
+        if not re.match(r'^ST::format_writer::parse_format\(', f.dem):
+            continue
+        si = f.sret_index()
+        if si is None:
+            cand = [k for k, p in enumerate(f.params) if 'format_spec' in p['ty'] and p['ty'].endswith('*')]
+            si = cand[0] if cand else None
+        if si is None:
+            run.ob('R11.7', short(f.dem), None, 'where this parser puts the spec is not recognised', loc=fn_loc(f))
+            continue
+        n += 1
+
+        class PH(c10.ParserHooks):
+            def on_store(self2, I, st, inst, p, v, nbytes):
+                if p.obj == 'SPECOUT' and not p.off.t:
+                    st.ev('spec-store', inst, p.off.c, nbytes)
+        I = Interp(m, F, E, PH(m))
+        st = c10.text_state()
+        so = Obj('ext', Lin.const(lay['size']))
+        so.lazy = True
+        st.objs['SPECOUT'] = so
+        args = []
+        for k, p in enumerate(f.params):
+            args.append(PtrV('SPECOUT') if k == si else PtrV('W'))
+        try:
+            outs = I.run(I.start(f, args, st))
+        except Budget as e:
+            run.ob('R11.7', short(f.dem), None, 'not interpreted: %s' % e, loc=fn_loc(f))
+            continue
+        missing, nret = {}, 0
+        always = None
+        by_ref = f.sret_index() is None
+        for o in outs:
+            if o.kind != 'ret':
+                continue
+            nret += 1
+            written = set()
+            for e in o.st.events:
+                if e[0] == 'spec-store':
+                    for b in range(e[2], e[2] + e[3]):
+                        written.add(b)
+            for (roff, rlen, tag, ver) in o.st.objs['SPECOUT'].regions:
+                rl = rlen if isinstance(rlen, int) else (rlen.c if isinstance(rlen, Lin) and not rlen.t else None)
+                if not roff.t and rl is not None:
+                    for b in range(roff.c, roff.c + rl):
+                        written.add(b)
+            for nm, (off, ty) in offs.items():
+                if off not in written:
+                    missing[nm] = missing.get(nm, 0) + 1
+            here = set(nm for nm, (off, ty) in offs.items() if off in written)
+            always = here if always is None else (always & here)
+        if nret and missing and by_ref and not always:
+            # a parser that fills a caller's object and resets nothing itself: resetting is the caller's business, not analysed here
+            run.ob('R11.7', short(f.dem), None, 'fills a spec object of its caller and writes no member unconditionally: whether the caller resets the object '
+                   'between fields is not analysed', loc=fn_loc(f))
+            continue
+        if nret == 0:
+            run.ob('R11.7', short(f.dem), None, 'no returning path explored', loc=fn_loc(f))
+        elif missing:
+            nm = sorted(missing)[0]
+            run.ob('R11.7', short(f.dem), False, 'member %s of the spec is not written on %d of %d returning path(s) (e.g. a field "{}" without flags): it keeps whatever '
+                   'the object held before - the flags of the previous field when the caller reuses the object%s' %
+                   (nm, missing[nm], nret, '; also: ' + ', '.join(sorted(missing)[1:]) if len(missing) > 1 else ''), loc=fn_loc(f), disc=nm)
+        else:
+            run.ob('R11.7', short(f.dem), True, 'all %d members written on each of %d returning path(s)' % (len(names), nret), loc=fn_loc(f))
+    return n
+
+
 def check(run):
     m = run.module()
     F = run.facts()
@@ -928,5 +1013,6 @@ def check(run):
     run.floor('apply_format instantiations', selection(run, m, F, E), 1)
     run.counts['character rendering paths'] = char_rendering(run, m, F, E)
     run.counts['flag characters decoded'] = flag_table(run, m, F, E)
+    run.floor('parsers whose spec is checked for members left undefined', spec_defined(run, m, F, E), 1)
     for o in run.obs[:6]:
         run.sample(dict(rule=o['rule'], subject=o['subject'], verdict=o['verdict'], detail=o['detail'][:200]))
